@@ -7,7 +7,7 @@
     histories (fillers + [write_config]) is checked by evaluation of the executable oracle
     [exact_all] on the model and on the real library for every generated history; see DESIGN.md. *)
 Require Import Sedpack.Model.Base Sedpack.Generated.GenMerge Sedpack.Model.Filler Sedpack.Model.Meta.
-Require Import Sedpack.Proofs.MergeBasics Sedpack.Proofs.MergeProofs Sedpack.Proofs.HistoryProofs.
+Require Import Sedpack.Proofs.MergeBasics Sedpack.Proofs.MergeProofs Sedpack.Proofs.HistoryProofs Sedpack.Proofs.ReachProofs.
 
 (** For every fuel, every non-empty list of updates below a common directory [p] (of depth
     [c]), and every file system whose list documents below [p] are locally well formed (what
@@ -41,6 +41,17 @@ Theorem c04_every_history_is_exact :
     forall (s : nat) (li : list_info), dget info s = Some li -> li_dir li = [s] /\ exact FUEL fs li = true.
 Proof. exact history_exact. Qed.
 Print Assumptions c04_every_history_is_exact.
+
+(** No stored shard is unlisted: after every history that completes, every shard file stored anywhere below a split is found by
+    the depth-first traversal from that split's root list (the order in which iteration visits shards), and the description
+    holds the split's summary.  (Invariant: every list document below a split is linked from the split root — re-established by
+    each merge for the directories it creates or is told about — and every shard is listed by the document of its own directory.) *)
+Theorem c04_no_shard_unlisted :
+  forall eps : nat, 1 <= eps -> forall (h : list session) (fs : fsT) (info : dinfo), run_history eps h = Ok (fs, info) ->
+  forall s t n v, lookup_shard (s :: t) n (shards fs) = Some v ->
+  exists li sh, dget info s = Some li /\ li_dir li = [s] /\ List.In sh (dfs FUEL fs [s]) /\ sh_dir sh = s :: t /\ sh_name sh = n.
+Proof. exact history_all_shards_listed. Qed.
+Print Assumptions c04_no_shard_unlisted.
 
 (** Non-vacuity and a whole-history instance: nested, reused and multi-writer sessions into two
     splits end in a state that the executable exactness oracle accepts (all counts, totals, child
